@@ -60,6 +60,13 @@ pub fn damage(r: &Rendering) -> Vec<Damaged> {
                 s.replace_range(*start..*start + ind, "\t");
                 out.push(Damaged { op: 3, variant: "tab-indentation", site: *start, text: s });
             }
+            // a tab in front of a non-first entry, whatever its indentation (also none): the tab is not
+            // indentation, and a block indicator or key cannot follow separation space at line start
+            if !r.first_lines.contains(start) {
+                let mut s = t.clone();
+                s.insert(*start, '\t');
+                out.push(Damaged { op: 3, variant: "tab-before-entry", site: *start, text: s });
+            }
         }
     }
     // 4. a non-first block entry shifted strictly between its collection's level and the enclosing one
@@ -193,7 +200,14 @@ pub fn damage(r: &Rendering) -> Vec<Damaged> {
         if bytes[i] == b'!' && t[i..].starts_with("!t") && !t[i..].starts_with("!t!") && (i == 0 || bytes[i - 1] != b'!') {
             let mut s = t.clone();
             s.replace_range(i..i + 2, "!zz!x");
-            out.push(Damaged { op: 11, variant: "undeclared-handle", site: i, text: s });
+            out.push(Damaged { op: 11, variant: "undeclared-handle", site: i, text: s.clone() });
+            // ... declared, but only for an EARLIER document (declarations end with their document,
+            // whether it is ended by '...' or by the next '---')
+            if !t.starts_with('%') {
+                let body = if s.starts_with("---") { s.clone() } else { format!("---\n{s}") };
+                out.push(Damaged { op: 11, variant: "handle-of-earlier-document after-docend", site: i, text: format!("%TAG !zz! tag:z,\n--- !zz!a x\n...\n{body}") });
+                out.push(Damaged { op: 11, variant: "handle-of-earlier-document after-docstart", site: i, text: format!("%TAG !zz! tag:z,\n--- !zz!a x\n{body}") });
+            }
         }
     }
     // 10b. an alias in a LATER document to an anchor of an earlier one (anchors end with their document)
